@@ -10,6 +10,10 @@ def main(tier):
     run.add(I.ReceiveLoopTask('C13'), I.ConnectTask('C13'), I.WaitTask('C13'), I.SendTask('C13', 'EByteNmea2000Gateway'))
     for cls in CLIENTS:
         run.add(I.ReceiveImplTask('C13', cls))
+    # every (re)connection starts the receive path from the new link alone: _connect_impl installs the new reader / writer and,
+    # for the serial client, an empty reassembly buffer
+    for cls in CLIENTS:
+        run.add(I.ConnectImplTask('C13', cls))
     from props import C13_extra
     C13_extra.add(run, tier)
     run.explanation = ('Safety decomposition, deductive under assumed asyncio/tenacity dependency contracts: (i) a fault in the receive loop or in send() with the client not CLOSED sets '
